@@ -1,4 +1,5 @@
 """C14 -- IDL built-in replacements (smooth, median, uniq, rebin) follow IDL semantics."""
+import fractions
 import os
 
 from harness import common as C
@@ -409,6 +410,103 @@ def gen_rebin(ctx, calls):
         calls.append((tag, {'f': 'rebin', 'x': x, 'dtype': dt, 'd': d, 'sample': rep % 2 == 0}))
 
 
+NP_NAME = {'f8': 'float64', 'f4': 'float32', 'i4': 'int32', 'i2': 'int16', 'i8': 'int64', 'u1': 'uint8', 'u2': 'uint16'}
+
+
+def mixed_values(rng, n):
+    """O(1) dyadic values with one huge sample (1e300 / -1e200) and/or a block offset by 1e17 early in the array;
+    the later part holds ordinary values only, so later windows must come out exactly as for an ordinary array"""
+    v = [C.dyadic(rng, -8, 8, 4) for _ in range(n)]
+    kind = rng.choice(['huge', 'neg', 'block', 'both'])
+    k = rng.randrange(0, max(1, n // 3))
+    # 1e300 / -1e200 themselves in about one case out of eight (1000-bit integers are slow in Coq's binary Z);
+    # otherwise magnitudes that swamp O(1) values just as completely in double arithmetic
+    if kind in ('huge', 'both'):
+        v[k] = 1e300 if rng.random() < 0.125 else rng.choice([2.0 ** 80, 1e30, 3.0 * 2.0 ** 100])
+    if kind == 'neg':
+        v[k] = -1e200 if rng.random() < 0.125 else rng.choice([-(2.0 ** 70), -1e25])
+    if kind in ('block', 'both'):
+        lo = rng.randrange(0, max(1, n // 3))
+        for j in range(lo, min(n, lo + rng.randint(1, 3))):
+            if abs(v[j]) < 1e100:
+                v[j] = 1e17 + v[j]          # rounded to a double here; that double is the input
+    return v
+
+
+def gen_mixed(ctx, calls):
+    rng = ctx.rng
+    for rep in range(ctx.n(70, 400)):
+        n = rng.randint(8, 40)
+        xs = mixed_values(rng, n)
+        w = rng.choice([3, 4, 5, 7, 9, min(n, 11)])
+        calls.append(('smooth-mixedmag-%s' % ('et' if rep % 2 else 'plain'),
+                      {'f': 'smooth', 'x': xs, 'w': w, 'et': bool(rep % 2)}))
+        if rep % 3 == 0:
+            calls.append(('medfilt1-mixedmag', {'f': 'medfilt', 'x': xs, 'w': rng.choice([3, 5, 7])}))
+            calls.append(('median-mixedmag', {'f': 'median', 'x': xs, 'even': bool(rep % 2)}))
+
+
+def gen_dtypes(ctx, calls):
+    """float32 / integer inputs for smooth (float32), median and the running median"""
+    rng = ctx.rng
+    for rep in range(ctx.n(60, 300)):
+        n = rng.randint(1, 30)
+        dt = rng.choice(['f4', 'i4', 'i8', 'i2', 'u1'])
+        if dt == 'f4':
+            xs = values(rng, n, rng.choice(['dyadic', 'few', 'ramp']), bits=4)
+            calls.append(('smooth-float32', {'f': 'smooth', 'x': xs, 'w': rng.randint(0, n + 1), 'et': bool(rep % 2), 'dtype': 'f4'}))
+        elif dt == 'u1':
+            xs = [rng.randint(0, 200) for _ in range(n)]
+        else:
+            xs = [rng.randint(-50, 50) for _ in range(n)]
+        calls.append(('median-' + ('float32' if dt == 'f4' else 'int'), {'f': 'median', 'x': xs, 'even': bool(rep % 3 == 0), 'dtype': dt}))
+        calls.append(('medfilt1-' + ('float32' if dt == 'f4' else 'int'),
+                      {'f': 'medfilt', 'x': xs, 'w': rng.randrange(1, n + 1, 2), 'dtype': dt}))
+        if rep % 4 == 0 and dt in ('f4', 'u1'):
+            r, c = rng.randint(3, 6), rng.randint(3, 6)
+            x2 = reshape([rng.randint(0, 200) for _ in range(r * c)], (r, c))
+            calls.append(('medfilt2-' + ('float32' if dt == 'f4' else 'int'), {'f': 'medfilt', 'x': x2, 'w': 3, 'dtype': dt}))
+
+
+def gen_histories(ctx, calls):
+    """several calls in one process on the SAME array object; every result is compared with the model's answer
+    on the ORIGINAL values"""
+    rng = ctx.rng
+    for rep in range(ctx.n(60, 300)):
+        if rep % 3 < 2:
+            n = rng.choice([4, 6, 8, 9, 10, 12, 15, 16, 20, 24])
+            xs = values(rng, n, rng.choice(['dyadic', 'few', 'spike']))
+            divs = [k for k in range(1, n) if n % k == 0]
+            pool = [
+                {'f': 'median', 'even': False}, {'f': 'median', 'even': True},
+                {'f': 'medfilt', 'w': rng.randrange(1, n + 1, 2)},
+                {'f': 'smooth', 'w': rng.randint(2, n), 'et': False}, {'f': 'smooth', 'w': rng.randint(2, n), 'et': True},
+                {'f': 'rebin', 'd': [n], 'sample': False}, {'f': 'rebin', 'd': [n * 2], 'sample': False},
+                {'f': 'rebin', 'd': [rng.choice(divs)], 'sample': bool(rng.getrandbits(1))},
+                {'f': 'uniq'},
+            ]
+            layout = rng.choice(['c', 'c', 'c', 'strided', 'rev'])
+        else:
+            r, c = rng.choice([2, 3, 4, 6]), rng.choice([2, 4, 5, 6])
+            xs = reshape(values(rng, r * c, rng.choice(['dyadic', 'few'])), (r, c))
+            pool = [
+                {'f': 'median', 'even': False}, {'f': 'median', 'even': True},
+                {'f': 'median_axis', 'axis': 0}, {'f': 'median_axis', 'axis': 1},
+                {'f': 'medfilt', 'w': rng.choice([1, 3])},
+                {'f': 'rebin', 'd': [r, c], 'sample': False}, {'f': 'rebin', 'd': [r * 2, c], 'sample': False},
+                {'f': 'rebin', 'd': [r, c * 3], 'sample': True},
+            ]
+            layout = rng.choice(['c', 'c', 'f', 't', 'strided'])
+        steps = [dict(rng.choice(pool)) for _ in range(rng.randint(3, 6))]
+        if rep % 2 == 0:
+            steps.insert(0, {'f': 'median', 'even': False})      # a plain median first, then everything else
+        calls.append(('history', {'f': 'history', 'x': xs, 'dtype': 'f8', 'layout': layout, 'steps': steps}))
+
+
+LAYOUTS_1D = ['c', 'c', 'c', 'strided', 'rev', 'ro']
+LAYOUTS_ND = ['c', 'c', 'f', 't', 'strided', 'ro']
+
+
 def gen_calls(ctx):
     calls = []
     gen_smooth(ctx, calls)
@@ -416,6 +514,14 @@ def gen_calls(ctx):
     gen_uniq(ctx, calls)
     gen_uniq_close(ctx, calls)
     gen_rebin(ctx, calls)
+    gen_mixed(ctx, calls)
+    gen_dtypes(ctx, calls)
+    gen_histories(ctx, calls)
+    # memory layout of the array argument: drawn for every call (contiguous / strided view / reversed view /
+    # Fortran order / transposed view / read-only)
+    for _, c in calls:
+        if 'layout' not in c and 'x' in c:
+            c['layout'] = ctx.rng.choice(LAYOUTS_1D if ndim(c['x']) == 1 else LAYOUTS_ND)
     return calls
 
 
@@ -459,59 +565,92 @@ def rres_term(r):
     return 'RValueError' if r.get('err') == 'ValueError' else 'ROther'
 
 
+def protected(r):
+    """generic bookkeeping of every call: arguments bit-identical afterwards, same answer on a read-only input"""
+    return bool(r.get('input_unchanged', True)) and bool(r.get('readonly_ok', True))
+
+
+def smooth_tols(xs, w, rel):
+    """per-sample tolerance rel * max(1, largest magnitude inside the sample's (clamped) window)"""
+    n = len(xs)
+    wodd = w + 1 if w % 2 == 0 else w
+    h = max(wodd // 2, 0)
+    ax = [abs(v) for v in xs]
+    out = []
+    for i in range(n):
+        lo, hi = max(0, min(n - 1, i - h)), max(0, min(n - 1, i + h))
+        out.append(rel * fractions.Fraction(max(1.0, max(ax[lo:hi + 1]))))    # exact, short literal for ordinary arrays
+    return out
+
+
 def case_term(c, r):
     """-> (coq term or None, direct problem or None)"""
     f = c['f']
+    dt = c.get('dtype', 'f8')
     if f == 'smooth':
         if 'ok' not in r:
             return None, 'smooth raised %s' % r.get('err')
-        meta = r['dtype'] == 'float64' and r['shape'] == [len(c['x'])] and r['input_unchanged']
-        return '(CSmooth %s %s %s %s %s %s)' % (qlist(c['x']), C.zlit(c['w']), C.boollit(bool(c['et'])), TOL['f8'],
+        meta = r['dtype'] == NP_NAME[dt] and r['shape'] == [len(c['x'])] and protected(r)
+        tols = smooth_tols(c['x'], c['w'], fractions.Fraction(1, 10 ** 12) if dt == 'f8' else fractions.Fraction(1, 10 ** 5))
+        return '(CSmooth %s %s %s %s %s %s)' % (qlist(c['x']), C.zlit(c['w']), C.boollit(bool(c['et'])), qlist(tols),
                                                 C.boollit(meta), qlist(r['ok'])), None
     if f == 'median':
         if 'ok' not in r:
             return None, 'median raised %s' % r.get('err')
         if not r['ndim0']:
             return None, 'median did not return a scalar'
-        return '(CMedian %s %s %s)' % (qlist(flatten(c['x'])), C.boollit(c['even']), C.qlit(r['ok'])), None
+        return '(CMedian %s %s %s %s)' % (qlist(flatten(c['x'])), C.boollit(c['even']), C.boollit(protected(r)), C.qlit(r['ok'])), None
     if f == 'median_axis':
         if 'ok' not in r:
             return None, 'median(axis) raised %s' % r.get('err')
-        return '(CMedianAxis %s %s %s)' % (qlist2(c['x']), C.zlit(c['axis']), qlist(r['ok'])), None
+        return '(CMedianAxis %s %s %s %s)' % (qlist2(c['x']), C.zlit(c['axis']), C.boollit(protected(r)), qlist(r['ok'])), None
     if f == 'medfilt':
         nd = ndim(c['x'])
         if 'ok' in r:
-            good = r['dtype'] == 'float64' and r['shape'] == shape_of(c['x']) and r['input_unchanged']
+            good = r['dtype'] == NP_NAME[dt] and r['shape'] == shape_of(c['x']) and protected(r)
             e = '(F%dOk %s)' % (nd, nested(r['ok'], nd)) if good else 'F%dOther' % nd
         else:
-            e = 'F%dValueError' % nd if r.get('err') == 'ValueError' else 'F%dOther' % nd
+            e = 'F%dValueError' % nd if r.get('err') == 'ValueError' and protected(r) else 'F%dOther' % nd
         return '(CMedFilt%d %s %s %s)' % (nd, nested(c['x'], nd), C.zlit(c['w']), e), None
     if f == 'uniq':
         if 'ok' not in r:
             return None, 'uniq raised %s' % r.get('err')
         want_dt = 'int64' if c.get('idx') is None else {'i8': 'int64', 'i4': 'int32'}[c.get('idx_dtype', 'i8')]
-        meta = r['dtype'] == want_dt and len(r['shape']) == 1
+        meta = r['dtype'] == want_dt and len(r['shape']) == 1 and protected(r)
         idx = C.optlit(c.get('idx'), zlist)
         if c['dtype'] == 'f8':
             return '(CUniqQ %s %s %s %s)' % (qlist(c['x']), idx, C.boollit(meta), zlist(r['ok'])), None
         return '(CUniqZ %s %s %s %s)' % (zlist(c['x']), idx, C.boollit(meta), zlist(r['ok'])), None
     if f == 'rebin':
         nd = ndim(c['x'])
-        dt = c['dtype']
         isint = dt not in ('f8', 'f4')
         tol = '0' if isint else TOL[dt]
-        np_name = {'f8': 'float64', 'f4': 'float32', 'i4': 'int32', 'i2': 'int16', 'i8': 'int64', 'u1': 'uint8', 'u2': 'uint16'}[dt]
-        meta = True
+        meta = protected(r)
         if 'ok' in r:
-            meta = r['dtype'] == np_name and r['shape'] == list(c['d']) and r['input_unchanged'] and r['is_ndarray']
+            meta = meta and r['dtype'] == NP_NAME[dt] and r['shape'] == list(c['d']) and r['is_ndarray']
         return '(CRebin%d %s %s %s %s %s %s %s)' % (nd, 'DInt' if isint else 'DFloat', C.boollit(c['sample']), nested(c['x'], nd),
                                                     zlist(c['d']), tol, C.boollit(meta), rres_term(r)), None
     raise ValueError(f)
 
 
+def history_steps(c, r):
+    """the steps of a history as ordinary (call, result) pairs on the ORIGINAL values"""
+    out = []
+    for st, o in zip(c['steps'], r.get('steps', [])):
+        ck = dict(st)
+        ck['x'] = c['x']
+        ck['dtype'] = c.get('dtype', 'f8')
+        if ck['f'] == 'uniq':
+            ck['idx'] = None
+        out.append((ck, o))
+    return out
+
+
 def signature(tag, c, r, verdict):
     f = c['f']
     what = 'property' if verdict & 2 else 'model'
+    if not protected(r):
+        what = ('argument-modified:' if not r.get('input_unchanged', True) else 'readonly-differs:') + what
     if f == 'rebin':
         dt = c['dtype']
         kind = 'f' if dt in ('f8', 'f4') else ('u' if dt.startswith('u') else 'i')
@@ -554,9 +693,19 @@ def correspond(ctx, proof_ok=True):
             results[bi + k * nb] = r
     ctx.coverage['pydl_file'] = outs[0]['pydl_file']
     ctx.coverage['numpy'] = outs[0]['numpy']
-    terms = []   # (call index, term)
+    terms = []   # (call index, term)   -- a history contributes one term per step (hstep[len(terms)] = step number)
     direct = []
+    hstep = {}
     for ci, ((tag, c), r) in enumerate(zip(calls, results)):
+        if c['f'] == 'history':
+            for k, (c_k, r_k) in enumerate(history_steps(c, r)):
+                t, problem = case_term(c_k, r_k)
+                if t is None:
+                    direct.append((ci, 'step %d: %s' % (k, problem)))
+                else:
+                    hstep[len(terms)] = k
+                    terms.append((ci, t))
+            continue
         t, problem = case_term(c, r)
         if t is None:
             direct.append((ci, problem))
@@ -568,9 +717,9 @@ def correspond(ctx, proof_ok=True):
 
     dist = {}
     for (tag, c), r in zip(calls, results):
-        k = tag + ':' + ('ok' if 'ok' in r else r.get('err', '?'))
+        k = tag + ':' + ('ok' if ('ok' in r or 'steps' in r) else r.get('err', '?'))
         dist[k] = dist.get(k, 0) + 1
-    bad = [(ci, t, v) for (ci, t), v in zip(terms, verdicts) if v != 0]
+    bad = [(ci, t, v, hstep.get(k)) for k, ((ci, t), v) in enumerate(zip(terms, verdicts)) if v != 0]
     fams = {}
     for tag, _ in calls:
         fams[tag.split('-')[0]] = fams.get(tag.split('-')[0], 0) + 1
@@ -579,8 +728,11 @@ def correspond(ctx, proof_ok=True):
         'distinct_nontrivial': len(set(t for _, t in terms)),
         'rule': 'one evaluation = one call of pydl.smooth/median/uniq/rebin on a generated array, its result compared inside Coq '
                 '(vm_compute) with the transliterated model M and with the IDL-rule specification S; floats are passed as exact rationals '
-                'and compared at 1e-12 (float64) / 1e-5 (float32), integers/medians/subscripts exactly; dtype, shape and input-not-mutated '
-                'are compared on the Python side and enter the spec bit; distinct = distinct Coq case terms',
+                'and compared at 1e-12 (float64) / 1e-5 (float32) relative to the largest magnitude in the sample\'s window, '
+                'integers/medians/subscripts exactly; on the Python side, for every call: result dtype/shape, every array argument '
+                '(in a random memory layout: contiguous / strided / reversed / Fortran / transposed / read-only) bit-identical after the call, '
+                'same answer on a read-only copy -- these enter the spec bit; a history = several calls on ONE array object, each step '
+                'compared with the model on the original values (one evaluation per step); distinct = distinct Coq case terms',
         'cases_by_family': fams,
         'cases_by_kind_and_outcome': dist,
         'model_disagreements': sum(1 for b in bad if b[2] & 1),
@@ -589,9 +741,36 @@ def correspond(ctx, proof_ok=True):
         'samples': [{'call': calls[ci][1], 'impl': results[ci], 'coq_case': t[:400]}
                     for ci, t in (terms[:1] + terms[len(terms) // 2:len(terms) // 2 + 1] + terms[-1:])],
     })
+    # informational only: results that share memory with their argument (on the good tree: smooth() with width < 3
+    # returns its argument; the C14 statement constrains values / shape / dtype, not object identity)
+    alias = {}
+    for (tag, c), r in zip(calls, results):
+        pairs = history_steps(c, r) if c['f'] == 'history' else [(c, r)]
+        for ck, o in pairs:
+            if o.get('aliases_input'):
+                alias[ck['f']] = alias.get(ck['f'], 0) + 1
+    ctx.coverage['aliasing_results'] = sum(alias.values())
+    ctx.coverage['aliasing_by_function'] = alias
+    ctx.coverage['layouts'] = {}
+    for _, c in calls:
+        ctx.coverage['layouts'][c.get('layout', '-')] = ctx.coverage['layouts'].get(c.get('layout', '-'), 0) + 1
     seen = set()
-    for ci, t, v in bad:
+    for ci, t, v, step in bad:
         tag, c = calls[ci]
+        if step is not None:
+            c_k, r_k = history_steps(c, results[ci])[step]
+            mutated = not all(o.get('input_unchanged', True) for o in results[ci]['steps'][:step + 1])
+            sig = 'C14:history:%s:%s:%s' % (c_k['f'], 'argument-modified' if mutated else 'argument-intact',
+                                            'property' if v & 2 else 'model')
+            if sig in seen:
+                continue
+            seen.add(sig)
+            ctx.violation(sig, 'step %d (%s) of a multi-call history on one array object does not give the answer for the '
+                          'original values%s' % (step, c_k['f'], ' (an earlier call modified its argument)' if mutated else ''),
+                          {'kind': 'failing-input', 'call': c, 'step': step, 'step_call': {k_: v_ for k_, v_ in c_k.items() if k_ != 'x'},
+                           'impl_result': r_k, 'all_steps': results[ci]['steps'], 'coq_case': t, 'verdict': v, 'meaning': MEANING},
+                          bool(v & 2))
+            continue
         sig = signature(tag, c, results[ci], v)
         if sig in seen:
             continue
@@ -617,6 +796,20 @@ def replay(ctx, rep):
         return 2
     out = C.run_impl('c14_impl.py', [c])
     r = out['results'][0]
+    if c['f'] == 'history':
+        print('history on one array object, layout %s, values %s' % (c.get('layout'), c['x']))
+        C.coq_make(['C14/Model.vo'])
+        cc = C.CoqCases(ctx.work, HEADER, 'run_cases', shard=50)
+        pairs = history_steps(c, r)
+        ts = [case_term(ck, rk) for ck, rk in pairs]
+        vs = cc.run([t for t, _ in ts if t is not None], tag='replay') if any(t for t, _ in ts) else []
+        vi = iter(vs)
+        for k, ((ck, rk), (t, problem)) in enumerate(zip(pairs, ts)):
+            print(' step %d %s -> %s | argument intact: %s | verdict %s' % (
+                k, {a_: b_ for a_, b_ in ck.items() if a_ not in ('x', 'dtype')}, rk.get('ok', rk.get('err')),
+                rk.get('input_unchanged'), next(vi) if t is not None else problem))
+        print('(verdict 0 = the answer for the ORIGINAL values; +1 model differs; +2 specification violated)')
+        return 0
     print('call   :', c)
     print('impl   :', r)
     print('before :', rep.get('impl_result'))
